@@ -449,14 +449,16 @@ where
     T: FloatT,
 {
     let two: T = (2.).as_T();
-    let three: T = (3.).as_T();
 
-    // init point x0: since our dual barrier has an additional
-    // shift -2α*log(α) - 2(1-α)*log(1-α) > 0 in f(x),
-    // the previous selection is still feasible, i.e. f(x0) > 0
+    // init point x0 with f(x0) > 0.   This is the starting point of
+    // the generalized power cone for exponents (α, 1-α), i.e. with
+    // ψ = 1/(α² + (1-α)²).   The constants 2 and 3 = ψ² - 1 are
+    // only valid for α = 1/2: for any other α they put x0 to the
+    // right of the root and the one-sided iteration stops immediately.
 
-    let x0 =
-        -s3.recip() + (s3 * two + T::sqrt((phi * phi) / (s3 * s3) + phi * three)) / (phi - s3 * s3);
+    let ψ = T::recip(α * α + (T::one() - α) * (T::one() - α));
+    let x0 = -s3.recip()
+        + (ψ * s3 + T::sqrt((phi / (s3 * s3) + ψ * ψ - T::one()) * phi)) / (phi - s3 * s3);
 
     // additional shift due to the choice of dual barrier
     let t0 = -two * α * (α.logsafe()) - two * (T::one() - α) * (T::one() - α).logsafe();
